@@ -147,6 +147,12 @@ fn main() {
                 continue;
             }
         };
+        if syn::parse2::<syn::ItemEnum>(ts.clone()).is_err() {
+            // not an enum item: rustc would never hand this to the derive
+            println!("CASE {} NOTENUM", i);
+            println!("END");
+            continue;
+        }
         if want_strip {
             let ts2 = ts.clone();
             match std::panic::catch_unwind(move || logos_codegen::strip_attributes(ts2).to_string()) {
